@@ -29,7 +29,6 @@ import (
 	"time"
 
 	"go.opentelemetry.io/collector/component"
-	"go.opentelemetry.io/collector/component/componenttest"
 	"go.opentelemetry.io/collector/config/configretry"
 	"go.opentelemetry.io/collector/consumer/consumererror"
 	"go.opentelemetry.io/collector/exporter"
@@ -60,6 +59,7 @@ type vECfg struct {
 	batcher    bool
 	bmin, bmax int
 	retry      bool
+	telMode    int // tracer provider mode (vC19NewTel); tracing = spans record
 }
 
 func (c vECfg) batching() bool { return c.qbatch || c.batcher }
@@ -85,7 +85,7 @@ func vb(b bool) int64 {
 
 func (c vECfg) term() string {
 	v := []int64{int64(c.sig), vb(c.queue), vb(c.storage), vb(c.itemsSizer), int64(c.capacity), vb(c.wfr), vb(c.qbatch),
-		int64(c.qmin), int64(c.qmax), vb(c.batcher), int64(c.bmin), int64(c.bmax), vb(c.retry)}
+		int64(c.qmin), int64(c.qmax), vb(c.batcher), int64(c.bmin), int64(c.bmax), vb(c.retry), vb(c.telMode == 0)}
 	it := make([]string, len(v))
 	for i, x := range v {
 		it[i] = vZ(x)
@@ -221,11 +221,11 @@ type vExpObs struct {
 var vC19Signals = []pipeline.Signal{pipeline.SignalTraces, pipeline.SignalMetrics, pipeline.SignalLogs}
 
 func vC19RunExp(_ *testing.T, cfg vECfg, outs []vEOut, ops []vEOp) vExpObs {
-	tel := componenttest.NewTelemetry()
+	tel, tset, _ := vC19NewTel(cfg.telMode)
 	defer func() { _ = tel.Shutdown(context.Background()) }()
 	p := &vPusher{outs: outs, retry: cfg.retry, sink: requesttest.NewSink(), hist: map[string]int{}}
 	obs := vExpObs{p: p}
-	set := exporter.Settings{ID: component.MustNewID("verif"), TelemetrySettings: tel.NewTelemetrySettings(), BuildInfo: component.NewDefaultBuildInfo()}
+	set := exporter.Settings{ID: component.MustNewID("verif"), TelemetrySettings: tset, BuildInfo: component.NewDefaultBuildInfo()}
 	sizers := map[request.SizerType]request.Sizer[request.Request]{
 		request.SizerTypeRequests: request.RequestsSizer[request.Request]{},
 		request.SizerTypeItems:    request.NewItemsSizer(),
@@ -451,6 +451,7 @@ func vC19RunExp(_ *testing.T, cfg vECfg, outs []vEOut, ops []vEOp) vExpObs {
 // ---- generator ----------------------------------------------------------------------------------
 func vC19GenExp(rng *vRand) (cfg vECfg, outs []vEOut, ops []vEOp, class string) {
 	cfg.sig = rng.Intn(3)
+	cfg.telMode = vC19TelMode(rng)
 	cfg.retry = rng.Intn(3) != 0
 	small := func() int { return 1 + rng.Intn(12) }
 	allowBurst, allowHang, allowFlush := false, false, false
@@ -646,19 +647,38 @@ func vC19ExpOracle(out *vOut, cfg vECfg, term string, o vExpObs) {
 	rhs := o.offered - o.stored
 	var other int64
 	for i, v := range o.tel.vec {
-		if i != 16+s && i != 19+s && i != 22+s && v != 0 {
+		if i < vC19SpanBase && i != 16+s && i != 19+s && i != 22+s && v != 0 {
 			other++
 		}
 	}
+	// span attributes: items.sent / items.failed of the recorded export spans carry the same totals as
+	// the counters when spans record; nothing is recorded otherwise
+	var spanBad string
+	for i := vC19SpanBase; i < vC19NCounters; i++ {
+		want := int64(0)
+		if cfg.telMode == 0 && i == 35+s {
+			want = sent
+		}
+		if cfg.telMode == 0 && i == 38+s {
+			want = failed
+		}
+		if o.tel.vec[i] != want {
+			spanBad = fmt.Sprintf("span attribute total #%d = %d, expected %d", i, o.tel.vec[i], want)
+		}
+	}
 	p := o.p
-	desc := fmt.Sprintf("sent=%d send_failed=%d enqueue_failed=%d offered=%d stored=%d | truth: ok=%d failed=%d refused=%d shutdown_interrupted=%d wfr_failed=%d storage=%v wfr=%v",
-		sent, failed, enq, o.offered, o.stored, p.okItems, p.errItems, o.refused, p.shutItems, o.wfrFailed, cfg.effStorage(), cfg.effWFR())
+	desc := fmt.Sprintf("tracer_mode=%d sent=%d send_failed=%d enqueue_failed=%d offered=%d stored=%d | truth: ok=%d failed=%d refused=%d shutdown_interrupted=%d wfr_failed=%d storage=%v wfr=%v",
+		cfg.telMode, sent, failed, enq, o.offered, o.stored, p.okItems, p.errItems, o.refused, p.shutItems, o.wfrFailed, cfg.effStorage(), cfg.effWFR())
 	if o.problem != "" {
 		kind := "exporter-harness-problem"
 		if len(o.problem) > 5 && o.problem[:5] == "gauge" {
 			kind = "exporter-gauge-inexact"
 		}
 		out.Oracle(kind, term, o.problem+" | "+desc)
+		return
+	}
+	if spanBad != "" && o.problem == "" {
+		out.Oracle("exporter-span-attributes-inexact", term, spanBad+" | "+desc)
 		return
 	}
 	if other != 0 || len(o.tel.unknown) > 0 {
@@ -728,6 +748,7 @@ func TestVerifC19Exp(t *testing.T) {
 		out.Case(true, term)
 		out.Stat("class_"+j.class, 1)
 		out.Stat(fmt.Sprintf("sig%d", j.cfg.sig), 1)
+		out.Stat(fmt.Sprintf("tracer_mode%d", j.cfg.telMode), 1)
 		for _, op := range j.ops {
 			out.Stat(fmt.Sprintf("op%d", op.code), 1)
 		}
